@@ -31,6 +31,9 @@ pub struct Case {
     /// whatever state earlier calls left the network
     #[serde(default)]
     pub pre: Option<Pre>,
+    /// evaluate a snapshot of the network (fresh `Network`, public fields taken over)
+    #[serde(default)]
+    pub snapshot: bool,
 }
 
 #[derive(Serialize, Deserialize, Clone, Debug)]
@@ -71,6 +74,9 @@ fn execute(case: &Case, ctx: &mut Ctx) -> Observed {
     if let Some(pre) = &case.pre {
         ctx.op();
         run_pre(&case.net, &mut net, pre);
+    }
+    if case.snapshot {
+        net = case.net.snapshot_of(&net);
     }
     // sequential reference, on the calling thread
     let px = tensors(&case.net, &case.pred);
@@ -178,6 +184,7 @@ impl Property for C12 {
             "eval_ge_300",
             "width_ge_8192",
             "output_activation_reset",
+            "snapshot_network",
         ]
     }
 
@@ -259,7 +266,8 @@ impl Property for C12 {
             };
             ys.push(y);
         }
-        Case { net, env, eval: Data { x: xs, y: ys }, tol, pred, pre }
+        let snapshot = rng.chance(0.08);
+        Case { net, env, eval: Data { x: xs, y: ys }, tol, pred, pre, snapshot }
     }
 
     fn check(&self, case: &Case, stats: &mut Stats) -> Outcome {
@@ -278,6 +286,7 @@ impl Property for C12 {
         stats.probe("mean_bitwise_equal", false);
         stats.probe("width_ge_8192", case.net.shapes().map(|v| v.iter().any(|s| s.count() >= 8192)).unwrap_or(false));
         stats.probe("output_activation_reset", case.net.built_last_act.is_some());
+        stats.probe("snapshot_network", case.snapshot);
         stats.probe("after_training_history", case.pre.is_some());
         stats.probe("after_training_with_dropout", case.pre.is_some() && case.net.has_dropout());
         stats.probe(&format!("objective_{:?}", case.net.objective), true);
@@ -297,6 +306,9 @@ impl Property for C12 {
                     let mut net = case.net.build();
                     if let Some(pre) = &case.pre {
                         run_pre(&case.net, &mut net, pre);
+                    }
+                    if case.snapshot {
+                        net = case.net.snapshot_of(&net);
                     }
                     let mut finite = true;
                     for x in tensors(&case.net, &case.pred).iter().chain(tensors(&case.net, &case.eval.x).iter()) {
@@ -444,6 +456,11 @@ impl Property for C12 {
             c.env.lenient = true;
             c
         };
+        if case.snapshot {
+            let mut c = lenient(case);
+            c.snapshot = false;
+            out.push(c);
+        }
         if case.pre.is_some() {
             let mut c = lenient(case);
             c.pre = None;
